@@ -12,6 +12,8 @@ Strings are hex of their UTF-8 bytes (`-` = empty string). Lists use `,` / `;`, 
   routep <n> <day|month|year> <present s,s,…|->  the same through databaseChannel.Write with only these shard channels
   evict <behind> <ahead> <stale|-> | off1 off2 … fresh batch of rows with ts = now+off, evict, write
   ifields <maxFields> <maxFieldName> | key:value:pint:pfloat …   field section of an influx line
+  fnew <fresh|pooled>                            a flat decoder: brand-new, or the one the last request released
+  fdec <metric>                                  BrokerRowFlatDecoder.DecodeTo of the raw flat row (no nil entries)
 
   <metric> = nil | n=<s> ns=<s> ts=<int> tags=<k:v|nil,…> f=<name:type:val|nil,…> cf=<-|min:max:sum:count:v;v;…:b;b;…>
   val = <int> | nan | +inf | -inf
@@ -20,6 +22,7 @@ import LinVerif.Util.Proto
 import LinVerif.Model.Route
 import LinVerif.Model.Hash64
 import LinVerif.Model.InfluxField
+import LinVerif.Model.FlatRow
 import LinVerif.Generated.C16
 
 namespace LinVerif.Driver.C16
@@ -211,13 +214,48 @@ structure St where
   cfg : Cfg
   stale : List Bool
   batch : List Stored   -- rows appended so far (slot i = position i)
+  dec : FlatRow.Dec     -- the flat decoder (with its RowBuilder) as the last row left it
+
+def showFErr : FlatRow.FErr → String
+  | .tooManyTags => "too-many-tags"
+  | .tagKeyTooLong => "tag-key-too-long"
+  | .tagValueTooLong => "tag-value-too-long"
+  | .emptyTag => "empty-tag"
+  | .tooManyFields => "too-many-fields"
+  | .fieldNameTooLong => "field-name-too-long"
+  | .fieldTypeUnspecified => "field-type-unspecified"
+  | .fieldInf => "field-inf"
+  | .fieldNaN => "field-nan"
+  | .emptyFieldName => "empty-field-name"
+  | .bucketsLenMismatch => "buckets-len-mismatch"
+  | .tooFewBuckets => "too-few-buckets"
+  | .boundsNotIncreasing => "bounds-not-increasing"
+  | .lastBoundNotInf => "last-bound-not-inf"
+  | .firstBoundNegative => "first-bound-negative"
+  | .bucketInf => "bucket-inf"
+  | .bucketNegative => "bucket-negative"
+  | .bucketNaN => "bucket-nan"
+  | .mmscNegative => "mmsc-negative"
+  | .nameTooLong => "name-too-long"
+  | .nsTooLong => "ns-too-long"
+  | .emptyName => "empty-name"
+  | .noField => "no-field"
+
+/-- a flat row has no nil entries -/
+def frow? (m : PMetric) : Option FlatRow.FRow := do
+  let tags ← m.tags.mapM id
+  let fs ← m.fields.mapM id
+  some ⟨m.name, m.ns, m.ts, tags, fs, m.compound⟩
+
+/-- rowKVs.Less of the RowBuilder compares keys only; ≤ 12 elements: insertion sort -/
+def sortFlatTags : List Tag → List Tag := insertionSort (less false)
 
 def lim0 : Limits :=
   ⟨Generated.C16.defaultMaxMetricNameLength, Generated.C16.defaultMaxFieldNameLength,
    Generated.C16.defaultMaxTagNameLength, Generated.C16.defaultMaxTagValueLength,
    Generated.C16.defaultMaxTagsPerMetric, Generated.C16.defaultMaxFieldsPerMetric⟩
 
-def St.init : St := ⟨⟨lim0, "", [], 0⟩, [], []⟩
+def St.init : St := ⟨⟨lim0, "", [], 0⟩, [], [], FlatRow.Dec.fresh⟩
 
 def marks? (w : String) : Option (List Bool) :=
   if w = "-" then some [] else
@@ -310,6 +348,21 @@ def step (st : St) (ws : List String) : St × String :=
       | .rejected => (st, "rejected")
       | .stored fs => (st, "stored " ++ showList "," (fs.map (fun f => s!"{showStr f.name}:{f.ftype}:{showF f.value}")))
     | _, _, _ => (st, "bad-op")
+  | ["fnew", k] =>
+    if k = "fresh" then ({ st with dec := FlatRow.Dec.fresh }, "ok")
+    else if k = "pooled" then (st, "ok")
+    else (st, "bad-op")
+  | "fdec" :: rest =>
+    match metric? rest with
+    | some (some m) =>
+      match frow? m with
+      | some r =>
+        let fc : FlatRow.FCfg := ⟨st.cfg, Generated.C16.defaultMaxNamespaceLength⟩
+        match FlatRow.decodeTo fc sortFlatTags H st.dec r with
+        | (d', .ok s) => ({ st with dec := d' }, showStored s)
+        | (d', .error e) => ({ st with dec := d' }, "ferr " ++ showFErr e)
+      | none => (st, "bad-op")
+    | _ => (st, "bad-op")
   | "evict" :: b :: a :: m :: "|" :: offs =>
     match b.toInt?, a.toInt?, marks? m, Proto.intList? offs with
     | some behind, some ahead, some ms, some offs =>
